@@ -43,8 +43,11 @@ CREATE = {
     "i": ("i = +x\niv = i[:2]\niv *= 2.0\ndel iv", {"X", "I"}, ["x"], set()),
     "g": ("g = x * 1.0\nmg.add(g[1:], 1.0, out=g[1:])", {"X", "G"}, ["x"], set()),
     "h": ("h = x * A\nh[:1] = 5.0", {"X", "A", "H"}, ["x"], set()),
+    # in-place updates whose OPERAND is natively read-only (a user array, through item assignment and through out=)
+    "j": ("j = x * A\nj[...] = R", {"X", "A", "R", "J"}, ["x"], set()),
+    "k": ("k = x * A\nk += R", {"X", "A", "R", "K"}, ["x"], set()),
 }
-RESULT_ARRAY = {"y": "Y", "z": "Z", "v": "V", "o": "O", "q": "Q", "w": "W", "u": "U", "a": "Aa", "b": "Bb", "f": "Ff", "i": "I", "g": "G", "h": "H"}
+RESULT_ARRAY = {"y": "Y", "z": "Z", "v": "V", "o": "O", "q": "Q", "w": "W", "u": "U", "a": "Aa", "b": "Bb", "f": "Ff", "i": "I", "g": "G", "h": "H", "j": "J", "k": "K"}
 RESULT_NAMES = set(RESULT_ARRAY.values()) - {"O"} | {"Gx"}
 VIEW_OWNER = {"AV": "A", "AV2": "A", "BV0": "BUF", "BV1": "BUF", "AVRO": "A2", "RWV": "R2"}
 NATIVE_RO = {"R", "R2", "AVRO"}
